@@ -101,6 +101,28 @@ def run(c):
     if np.any(lp[~good] != 0):
         out["oracle"].append("a masked pixel has a non-zero log-probability term")
 
+    if c["loss"].startswith("student_t") and good.any():
+        # per-pixel log-density at zero residual and at a residual of 2 rms: for a Student-t with 5 d.o.f. and scale s,
+        # lp(0) - lp(r) = 3 ln(1 + (r/s)^2 / 5), which gives s pixel by pixel
+        def site_lp(data_):
+            trx = handlers.trace(handlers.substitute(model, data=lat)).get_trace(jnp.array(mod), jnp.array(data_), jnp.array(rms))
+            so = [s_ for s_ in trx.values() if s_["type"] == "sample" and s_.get("is_observed", False)][0]
+            return np.asarray(so["fn"].log_prob(so["value"]), np.float64)
+        r_ = 2.0 * np.asarray(rms, np.float64)
+        lp0, lp2 = site_lp(mod), site_lp((np.asarray(mod, np.float64) + r_).astype(np.float32))
+        z2 = 5.0 * np.expm1((lp0 - lp2) / 3.0)
+        with np.errstate(all="ignore"):
+            s_meas = r_ / np.sqrt(z2)
+        sysv = 0.0
+        for k_, v_ in out["dets"].items():
+            if k_.startswith("sys_rms") and not k_.startswith("sys_rms_base"):
+                sysv = float.fromhex(v_)
+        ratio = s_meas / np.sqrt(np.asarray(rms, np.float64) ** 2 + sysv ** 2)
+        rg = ratio[good]
+        out["student_scale_ratio"] = [float(rg.min()), float(rg.max())]
+        if not np.all(np.isfinite(rg)) or rg.max() / rg.min() - 1 > 2e-4:
+            out["oracle"].append("Student-t scale is not proportional to sqrt(rms^2 + sys_rms^2): scale / that ranges over [%.5f, %.5f] across pixels" % (rg.min(), rg.max()))
+
     # ---- C06 oracle on the implementation: exact invariance + gradients
     def total(mod_, data_, rms_):
         return log_density(model, (mod_, data_, rms_), {}, lat)[0]
@@ -115,6 +137,14 @@ def run(c):
             t2 = float(total(jnp.array(arrs["mod"]), jnp.array(arrs["data"]), jnp.array(arrs["rms"])))
             if t2 != base:
                 out["oracle"].append("log-density changes by %g when masked %s pixels change" % (t2 - base, which))
+        for dv, rv in ((1e30, None), (-3e25, 1e-3), (1e30, 1e15)):
+            arrs = {"data": data.copy(), "rms": rms.copy(), "mod": mod.copy()}
+            arrs["data"][bad] = np.float32(dv)
+            if rv is not None:
+                arrs["rms"][bad] = np.float32(rv)
+            t2 = float(total(jnp.array(arrs["mod"]), jnp.array(arrs["data"]), jnp.array(arrs["rms"])))
+            if not (t2 == base):
+                out["oracle"].append("log-density becomes %r (was %r) when masked pixels hold the huge finite values data=%g%s" % (t2, base, dv, "" if rv is None else ", rms=%g" % rv))
     g_mod, g_data, g_rms = jax.grad(total, argnums=(0, 1, 2))(jnp.array(mod), jnp.array(data), jnp.array(rms))
     g_data, g_rms, g_mod = np.asarray(g_data), np.asarray(g_rms), np.asarray(g_mod)
     for nm, g in (("data", g_data), ("rms", g_rms), ("model", g_mod)):
